@@ -12,10 +12,8 @@ from extract import AnalysisBroken
 from rules.c01t import _decided_by
 
 
-# Scope of the violations: the allocator layer itself (functions that hand the exception object on: sexp_alloc*) and
-# the VM unit, where results of every maker are followed.  Constructors elsewhere that fill in a fresh object without
-# testing it are reported as advisory: on exhaustion they overwrite the fields of the shared exception object (and,
-# for objects larger than an exception, the chunk behind it); they were not triaged one by one.
+# Scope: results of the allocator layer (sexp_alloc and what returns its result unfiltered) are followed in every unit;
+# in the VM unit the results of every constructor (a function that returns such a result) are followed as well.
 VM_UNITS = ("vm.c",)
 
 
@@ -62,6 +60,10 @@ def _exc_test(fn, atom, pol, vtxt, exc_tag):
                 return True
         return all(parts)
     if nd["k"] == "bin" and nd["o"] in ("==", "!="):
+        for a, b in ((0, 1), (1, 0)):
+            # identity with the shared object itself: v == sexp_global(ctx, SEXP_G_OOM_ERROR)
+            if fn.txt(fn.strip(nd["c"][a])) == vtxt and "SEXP_G_OOM_ERROR" in _txt(fn, nd["c"][b]):
+                return (nd["o"] == "==") != pol
         for a, b in ((0, 1), (1, 0)):
             ta = fn.txt(fn.strip(nd["c"][a]))
             if ta == vtxt + "->tag":
@@ -152,7 +154,7 @@ def run(prog, res, floor=1):
                     stat.discharged += 1
                     stat.sample({"site": fn.where(at), "function": fn.name, "allocator": c.get("o"), "result": vtxt})
                 else:
-                    advisory = not (fn.name in allocs or in_vm)
+                    advisory = False
                     res.add(Finding("C10", "C10.e.store-through-untested-allocation", fn.name, "%s = %s" % (vtxt, c.get("o")),
                                     fn.where(bad), "%s writes through `%s`, the result of %s, on a path with no test that excludes the "
                                     "shared out-of-memory exception object which %s returns when the heap cannot grow: that object is "
